@@ -17,6 +17,12 @@ open PF PF.Hashable
     to the pickle digest. -/
 theorem C15_dispatch : dispatchMatchesModel Generated.toHashableBranches Generated.toHashableFallback = true := by decide
 
+/-- The pandas branches of the source are the ones `Model/HashablePandas.lean` mirrors (`seriesKey`, `frameKey`, the theorems
+    of `Props/C15Pandas.lean`): a Series is converted through `obj.to_dict()` — the index labels are the dict keys — with
+    `obj.name` in front, a DataFrame through `obj.to_dict('list')` — the column labels are the dict keys; both tagged
+    `(m, tp, …)`, both behind the `"pandas" in sys.modules` guard, each class tested once. -/
+theorem C15_dispatch_pandas : pandasMatchesModel Generated.toHashableBranches = true := by decide
+
 /-- `_HASH_MARKER` is the model's `marker`; `hash(obj)` is tried first and a hashable object is returned as it is unless it
     is a tuple headed by the marker (the DF-32 repair: `key true`); the tag is the class object. -/
 theorem C15_dispatch_prelude : preludeMatchesModel Generated.toHashablePrelude = true := by decide
